@@ -144,3 +144,73 @@ Proof. destruct s; reflexivity. Qed.
 Lemma run_op_wp (f : option nat) o c (Q : res rv -> cst -> Prop) :
   wp (op_sem o) (fun r s' => Q r (core s')) (mkSt c f) -> Q (fst (run_op f o c)) (snd (run_op f o c)).
 Proof. unfold wp, run_op. destruct (op_sem o (mkSt c f)) as [r s']; cbn. auto. Qed.
+
+(* ---- the injector never re-arms, whatever the program ------------------------------------------------ *)
+Definition quiet_m {A} (m : M A) : Prop := forall s, quiet (flt s) (flt (snd (m s))).
+Lemma qm_ret {A} (a : A) : quiet_m (ret a). Proof. intros s. cbn. auto. Qed.
+Lemma qm_throw {A} e : quiet_m (@throw A e). Proof. intros s. cbn. auto. Qed.
+Lemma qm_disarm {A} e : quiet_m (@disarm A e). Proof. intros s. cbn. auto. Qed.
+Lemma qm_getc {A} (f : cst -> res A) : quiet_m (getc f). Proof. intros s. cbn. auto. Qed.
+Lemma qm_reads {A} (f : tables -> A) : quiet_m (reads f). Proof. intros s. cbn. auto. Qed.
+Lemma qm_readr {A} (f : tables -> res A) : quiet_m (readr f). Proof. intros s. cbn. auto. Qed.
+Lemma qm_updc f : quiet_m (updc f). Proof. intros s. cbn. auto. Qed.
+Lemma qm_tick : quiet_m tick.
+Proof. intros [c [[|k]|]]; cbn; auto. red. discriminate. Qed.
+Lemma qm_bind {A B} (m : M A) (f : A -> M B) : quiet_m m -> (forall a, quiet_m (f a)) -> quiet_m (mbind m f).
+Proof.
+  intros Hm Hf s. unfold mbind. specialize (Hm s). destruct (m s) as [[a|e] s']; cbn in *; [|assumption].
+  eapply quiet_trans; [eassumption | apply Hf].
+Qed.
+Lemma qm_fun {A} (m : M A) : (forall s, quiet (flt s) (flt (snd (m s)))) -> quiet_m m.
+Proof. auto. Qed.
+Lemma qm_sql_w f : quiet_m (sql_w f).
+Proof.
+  unfold sql_w. apply qm_bind; [apply qm_tick|]. intros _ s. destruct (f (db (core s))); cbn; auto.
+Qed.
+Lemma qm_commit : quiet_m commit.
+Proof. unfold commit. apply qm_bind; [apply qm_tick | intros; apply qm_updc]. Qed.
+Lemma qm_tpm_save k m : quiet_m (tpm_save k m).
+Proof. unfold tpm_save. apply qm_bind; [apply qm_tick | intros; apply qm_updc]. Qed.
+Lemma qm_tpm_delete k : quiet_m (tpm_delete k).
+Proof. unfold tpm_delete. apply qm_bind; [apply qm_tick | intros; apply qm_updc]. Qed.
+Lemma qm_tpm_read k : quiet_m (tpm_read k).
+Proof.
+  unfold tpm_read. apply qm_bind; [apply qm_tick|]. intros _ s. destruct (al_get name_eqb (tpm (core s)) k); cbn; auto.
+Qed.
+Lemma qm_with_conn {A} (body : M A) : quiet_m body -> quiet_m (with_conn body).
+Proof.
+  intros Hb s. unfold with_conn. specialize (Hb s). destruct (body s) as [[a|e] s1]; cbn in *; [|assumption].
+  pose proof (qm_commit s1) as Hc. destruct (commit s1) as [[u|e] s2]; cbn in *; eapply quiet_trans; eassumption.
+Qed.
+Lemma qm_on_error {A} (body : M A) h : quiet_m body -> quiet_m h -> quiet_m (on_error body h).
+Proof.
+  intros Hb Hh s. unfold on_error. specialize (Hb s). destruct (body s) as [[a|e] s1]; cbn in *; [assumption|].
+  specialize (Hh s1). destruct (h s1) as [[u|e'] s2]; cbn in *; eapply quiet_trans; eassumption.
+Qed.
+Lemma qm_mwhen b m : quiet_m m -> quiet_m (mwhen b m).
+Proof. destruct b; cbn; [auto | intros; apply qm_ret]. Qed.
+Lemma qm_mfor {A} (l : list A) f : (forall x, quiet_m (f x)) -> quiet_m (mfor l f).
+Proof. intros Hf. induction l; cbn [mfor]; [apply qm_ret | apply qm_bind; auto]. Qed.
+Lemma qm_if {A} (b : bool) (m1 m2 : M A) : quiet_m m1 -> quiet_m m2 -> quiet_m (if b then m1 else m2).
+Proof. destruct b; auto. Qed.
+
+Ltac qm :=
+  repeat first
+    [ apply qm_ret | apply qm_throw | apply qm_getc | apply qm_reads | apply qm_readr | apply qm_updc
+    | apply qm_sql_w | apply qm_commit | apply qm_tpm_save | apply qm_tpm_delete | apply qm_tpm_read
+    | apply qm_with_conn | apply qm_on_error | apply qm_mwhen | apply qm_mfor | apply qm_if
+    | apply qm_bind | match goal with |- forall _, _ => intro end ].
+
+Lemma wp_quiet {A} (m : M A) (Q : res A -> st -> Prop) s :
+  quiet_m m -> wp m Q s -> wp m (fun r s' => Q r s' /\ quiet (flt s) (flt s')) s.
+Proof. unfold wp. intros Hq H. split; [assumption | apply Hq]. Qed.
+
+Lemma qm_set_default_key_raw n : quiet_m (set_default_key_raw n).
+Proof. unfold set_default_key_raw. qm. Qed.
+Lemma qm_new_key idn kt ks m v : quiet_m (new_key idn kt ks m v).
+Proof.
+  unfold new_key, generate_key, tpm_exists. qm; try apply qm_set_default_key_raw.
+  all: try (destruct ks; qm).
+Qed.
+Lemma qm_del_key kn : quiet_m (del_key kn).
+Proof. unfold del_key, cache_reset. qm. Qed.
